@@ -175,3 +175,21 @@ Proof.
   pose proof (fr_cap _ _ _ Fr) as Cp. unfold EndInv in Cp. pose proof (proj2 (fi_ends _ _ _ F)).
   destruct Cp as [C|C]; lia.
 Qed.
+
+(* ---------- pages and bytes: the page count of a bounded file ---------- *)
+(* a file that ends at or below max_pages_of pages ends at or below the maximum size in bytes *)
+Theorem max_pages_within_size maxSize ps endp :
+  0 < ps -> 0 < maxSize -> 0 <= endp <= max_pages_of maxSize ps -> endp * ps <= maxSize.
+Proof.
+  intros Hps Hm [H0 H]. unfold max_pages_of in H. replace (0 <? maxSize) with true in H by (symmetry; apply Z.ltb_lt; exact Hm).
+  pose proof (Z.mul_div_le maxSize ps Hps). nia.
+Qed.
+(* ... and it is the largest such count *)
+Theorem max_pages_largest maxSize ps : 0 < ps -> 0 < maxSize -> (max_pages_of maxSize ps + 1) * ps > maxSize.
+Proof.
+  intros Hps Hm. unfold max_pages_of. replace (0 <? maxSize) with true by (symmetry; apply Z.ltb_lt; exact Hm).
+  pose proof (Z.mod_pos_bound maxSize ps Hps). pose proof (Z.div_mod maxSize ps ltac:(lia)). nia.
+Qed.
+(* rounding up (seeded change C11j): a file filled to its last page is larger than the maximum size *)
+Theorem max_pages_ceil_refuted : exists maxSize ps, 0 < ps /\ 0 < maxSize /\ max_pages_ceil maxSize ps * ps > maxSize.
+Proof. exists 66048, 1024. vm_compute. repeat split; reflexivity. Qed.
